@@ -74,6 +74,11 @@ pub struct AnalysisResult {
     /// Maps binding name → constraint display string for bindings with constraints.
     /// Populated for `constraint` statements and `let` bindings with `::` constraints.
     pub constraint_info: HashMap<Rc<str>, String>,
+    /// The analyzed text and the byte offset each of its lines starts at. UCG
+    /// columns count bytes, the protocol counts UTF-16 code units. These
+    /// convert between the two at the protocol boundary.
+    content: String,
+    line_starts: Vec<usize>,
 }
 
 impl AnalysisResult {
@@ -91,6 +96,76 @@ impl AnalysisResult {
             constraint_info: HashMap::new(),
             inner_import_map: HashMap::new(),
             def_positions: HashMap::new(),
+            content: String::new(),
+            line_starts: vec![0],
+        }
+    }
+
+    fn set_content(&mut self, content: &str) {
+        self.content = content.to_string();
+        self.line_starts = std::iter::once(0)
+            .chain(content.match_indices('\n').map(|(i, _)| i + 1))
+            .collect();
+    }
+
+    /// The text of a 0-based line without its newline.
+    fn line_text(&self, line: u32) -> Option<&str> {
+        let start = *self.line_starts.get(line as usize)?;
+        let end = match self.line_starts.get(line as usize + 1) {
+            Some(next) => next - 1,
+            None => self.content.len(),
+        };
+        Some(&self.content[start..end])
+    }
+
+    /// Convert a 0-based byte offset in a line to the UTF-16 offset the
+    /// protocol counts in. Offsets past the end of the line stay that far past it.
+    pub fn utf16_col(&self, line: u32, col: u32) -> u32 {
+        let text = match self.line_text(line) {
+            Some(text) => text,
+            None => return col,
+        };
+        let col = col as usize;
+        let units = if col >= text.len() {
+            text.encode_utf16().count() + (col - text.len())
+        } else {
+            text.char_indices()
+                .take_while(|(i, _)| *i < col)
+                .map(|(_, c)| c.len_utf16())
+                .sum()
+        };
+        units.min(u32::MAX as usize) as u32
+    }
+
+    /// Convert a 0-based UTF-16 offset in a line to the byte offset UCG
+    /// columns count in. The inverse of `utf16_col`.
+    pub fn byte_col(&self, line: u32, character: u32) -> u32 {
+        let text = match self.line_text(line) {
+            Some(text) => text,
+            None => return character,
+        };
+        let character = character as usize;
+        let mut units = 0;
+        for (i, c) in text.char_indices() {
+            if units >= character {
+                return i as u32;
+            }
+            units += c.len_utf16();
+        }
+        (text.len() + character.saturating_sub(units)).min(u32::MAX as usize) as u32
+    }
+
+    /// Convert a range in UCG columns to the range the protocol expects.
+    pub fn lsp_range(&self, range: Range) -> Range {
+        Range {
+            start: LspPosition {
+                line: range.start.line,
+                character: self.utf16_col(range.start.line, range.start.character),
+            },
+            end: LspPosition {
+                line: range.end.line,
+                character: self.utf16_col(range.end.line, range.end.character),
+            },
         }
     }
 }
@@ -355,6 +430,24 @@ fn collect_inner_import_paths(
 /// errors at each stage are collected as LSP diagnostics rather than
 /// aborting analysis.
 pub fn analyze(
+    content: &str,
+    working_dir: Option<&Path>,
+    resolved: &HashMap<PathBuf, AnalysisResult>,
+) -> AnalysisResult {
+    let mut result = analyze_text(content, working_dir, resolved);
+    result.set_content(content);
+    let ranges: Vec<Range> = result
+        .diagnostics
+        .iter()
+        .map(|d| result.lsp_range(d.range))
+        .collect();
+    for (d, range) in result.diagnostics.iter_mut().zip(ranges) {
+        d.range = range;
+    }
+    result
+}
+
+fn analyze_text(
     content: &str,
     working_dir: Option<&Path>,
     resolved: &HashMap<PathBuf, AnalysisResult>,
